@@ -82,6 +82,10 @@ def sources(tier, seed, ctx):
     for t in ['NOT', 'AND', 'NAND', 'OR', 'NOR', 'XOR', 'NXOR', 'GEQ', 'GT', 'LEQ', 'LT']:
         srcs.append({'k': 'pattern', 't': t})
     srcs.append({'k': 'opcodes'})
+    for t in gen.ALL18:
+        ars = [0] if t in gen.NULLARY else [1] if t in gen.UNARY else [2] if t in gen.BINARY else [2, 3]
+        for a in ars:
+            srcs.append({'k': 'cnftemplate', 't': t, 'n': max(a, 1) if t in gen.NULLARY else a})
     for code in itertools.product('01', repeat=4):
         srcs.append({'k': 'synthcode', 'code': ''.join(code)})
     return srcs
@@ -242,6 +246,29 @@ def record(src):
     if src['k'] == 'eval':
         c = build(src)
         return {'kind': 'eval', 'c': project(c), 'obs': observe_eval(c), 'src': src}
+    if src['k'] in ('optable', 'ttcode', 'pattern'):
+        # what the library raises while one of its gate tables is read is an observation, not a harness failure
+        try:
+            return _record_table(src)
+        except Exception as e:
+            if src['k'] == 'ttcode':
+                return {'kind': 'ttcode', 'code': [int(ch) for ch in src['code']], 't': 'raised:' + type(e).__name__, 'rows': [], 'src': src}
+            return {'kind': 'optable', 't': src['t'], 'n': src.get('n', 2), 'who': src.get('who', 'subcircuit-pattern-simulation') + '-raised:' + type(e).__name__,
+                    'rows': [], 'badrows': [0], 'src': src}
+    if src['k'] == 'cnftemplate':
+        # the CNF template of one gate type, judged by the exactness clause of C05 on a one-gate circuit
+        try:
+            from . import c05
+        except Exception:
+            return []
+        return c05.record({'k': 'cnf', 'net': [src['n'], [[src['t'], list(range(1, src['n'] + 1)) if src['t'] not in gen.NULLARY else []]]],
+                           'outs': [src['n'] + 1], 'sel': None, 'variant': 'plain', 'vs': 0})
+    return _record_rest(src)
+
+
+def _record_table(src):
+    from cirbo.core.circuit import Circuit, gate as G
+
     if src['k'] == 'optable':
         t, n = src['t'], src['n']
         rows = []
@@ -288,6 +315,12 @@ def record(src):
                 bits = [(i >> j) & 1 for j in range(n)]      # assignment number i gives input j the bit j of i
                 rows.append(sum(b << (n - 1 - j) for j, b in enumerate(bits)))
         return {'kind': 'optable', 't': t, 'n': n, 'who': 'subcircuit-pattern-simulation', 'rows': sorted(rows), 'badrows': [], 'src': src}
+    raise ValueError(src['k'])
+
+
+def _record_rest(src):
+    from cirbo.core.circuit import Circuit, gate as G
+
     if src['k'] == 'synthcode':
         # the synthesis encoder asked for ONE gate over the basis {operation with this code} and the
         # function with this truth table must answer with a gate that denotes the code
